@@ -21,6 +21,10 @@ def run(run, model):
         fi, lp, mp = h
         run.do(loops.verdict_rule, model, "C02.first-failure", fi, lp, mp, 1)
     run.do(common.append_rules, model, "C02.append", which=("post",))
+    from . import marker, meta, c18
+    run.do(marker.body_rules, model, "C02.body-unheld", None)
+    run.do(meta.provenance_rule, model, "C02.inherited-post", "__postconditions__", "postconditions")
+    run.do(c18.find_rule, model, "C02.single-checker")
     run.minimum("C02.gate", 2)
     run.minimum("C02.result-identity", 11, "two returns per marker wrapper, one in the __new__ wrapper")
     run.minimum("C02.exc-transparent", 11)
